@@ -1256,10 +1256,14 @@ class _Flattener:
                 return None
 
         # Get variable or dimension
-        if search_dim:
-            elt = current_group.dimensions[ref_split[-1]]
-        else:
-            elt = current_group.variables[ref_split[-1]]
+        try:
+            if search_dim:
+                elt = current_group.dimensions[ref_split[-1]]
+            else:
+                elt = current_group.variables[ref_split[-1]]
+        except KeyError:
+            # The group exists, but the element is not in it
+            return None
 
         # Get absolute reference
         return self.pathname(self.group(elt), self.name(elt))
